@@ -485,12 +485,10 @@ class Fw:
                                      % (lab, msg, f['inputs'], rep['rc'], rep['checkfails']))
                 ok = False
                 continue
-            kf = self.match_known(res['root'], msg, f['inputs'])
-            if kf:
-                self.known_hits.append((kf, f['inputs']))
-            else:
-                self.report_violation(harness, res['root'], defines, msg, f['inputs'], rep)
-                ok = False
+            # listed findings are excluded from the queries by harness defines (and replayed separately by known_finding_lines):
+            # whatever still fails here is, by construction, not a listed finding
+            self.report_violation(harness, res['root'], defines, msg, f['inputs'], rep)
+            ok = False
         return ok
 
     def match_known(self, root, msg, inputs):
